@@ -8,13 +8,6 @@ import SpecVerif.Model.Basic
 -/
 namespace SpecVerif
 
-class IsZero (K : Type) where
-  isZero : K → Bool
-export IsZero (isZero)
-
-instance : IsZero CRat := ⟨fun z => z.re == 0 && z.im == 0⟩
-instance : IsZero CFloat := ⟨fun z => z.re == 0.0 && z.im == 0.0⟩
-
 section
 variable {K : Type} [Add K] [Sub K] [Mul K] [Div K] [Neg K] [OfNat K 0] [OfNat K 1] [NatCast K]
   [Conj K] [IsZero K]
